@@ -212,7 +212,8 @@ func (server *SugarDB) handleCommand(ctx context.Context, message []byte, conn *
 			}
 		}
 
-		if internal.IsWriteCommand(command, subCommand) && !replay {
+		// (The append-only log only exists in standalone mode.)
+		if internal.IsWriteCommand(command, subCommand) && !replay && !server.isInCluster() {
 			verifhook.Point("cmd.executed")
 			// Log the command under the database it was executed in (for embedded calls there is no
 			// TCP connection to look the database up from).
